@@ -34,7 +34,7 @@ class Poly:
     def __init__(self, rng, deg, dim):
         self.terms = []
         for i, j, k in itertools.product(range(deg + 1), repeat=3):
-            if i + j + k <= deg and (dim == 3 or k == 0) and (dim >= 2 or j == 0):
+            if not (i + j + k > deg) and (dim == 3 or k == 0) and (dim >= 2 or j == 0):
                 c = rng.randint(-3, 3)
                 if c:
                     self.terms.append((c, i, j, k))
@@ -69,7 +69,7 @@ def rand_affine(rng, dim):
         for i in range(dim):
             for j in range(dim):
                 A[i, j] = rng.randint(-4, 4) / 4
-        if abs(np.linalg.det(A)) > 0.3:
+        if not (abs(np.linalg.det(A)) <= 0.3):
             return A, np.array([rng.randint(-4, 4) / 4 if i < dim else 0.0 for i in range(3)])
 
 
@@ -180,7 +180,7 @@ def main():
                     deg = 0 if form == "constant" else rng.randint(1, order)
                     polys = [Poly(rng, deg, dim) for _ in unknowns]
                     nodes = np.sort(nodes)
-                    if form == "nodal" or rng.random() < 0.3:
+                    if form == "nodal" or not (rng.random() >= 0.3):
                         # a selection is a set of nodes: any listing order (unions of selections, nodes ordered along a line) is legitimate
                         nodes = nodes[np.array(rng.sample(range(len(nodes)), len(nodes)), dtype=int)]
                     if form == "constant":
@@ -192,7 +192,7 @@ def main():
                     else:
                         values = [p(X[nodes, 0], X[nodes, 1], X[nodes, 2]) * np.ones(len(nodes)) for p in polys]
                     strays = []
-                    if rname != "domain" and rng.random() < 0.5:
+                    if rname != "domain" and not (rng.random() >= 0.5):
                         interior = np.where((Y[:, 0] > 0) & (Y[:, 0] < a) & (Y[:, 1] > 0) & (Y[:, 1] < b) & ((dim == 2) | ((Y[:, 2] > 0) & (Y[:, 2] < c))))[0]
                         strays = list(interior[:2])
                     sel = np.concatenate([nodes, np.array(strays, dtype=int)]) if strays else nodes
@@ -200,7 +200,7 @@ def main():
                     if form == "nodal" and strays:
                         vals = [np.concatenate([v, 7.0 * np.ones(len(strays))]) for v in values]
                     dup = 0
-                    if form == "constant" or rng.random() < 0.3:
+                    if form == "constant" or not (rng.random() >= 0.3):
                         # a selection built by concatenating two selections lists their common nodes twice
                         dup = min(2, len(nodes))
                         sel = np.concatenate([sel, nodes[:dup]])
@@ -220,7 +220,7 @@ def main():
                     want_R = factor * ref_integral(qfun, y0, dirs, A, t)
                     got_R = F.sum(0)
                     scale = 1 + np.abs(want_R).max()
-                    if np.abs(got_R - want_R).max() > 1e-9 * scale:
+                    if not (np.abs(got_R - want_R).max() <= 1e-9 * scale):
                         res.fail(f"resultant {fname} form={form} elem={et}", f"Σ nodal forces = {got_R.tolist()} but ∫ density = {want_R.tolist()}", ident)
                         continue
                     if ncomp > 1:
@@ -233,7 +233,7 @@ def main():
                         got_M = (X * F).sum(0)
                         want_M = factor * ref_integral(lambda x: x * qfun(x)[0], y0, dirs, A, t)
                     scale = 1 + np.abs(want_M).max()
-                    if np.abs(got_M - want_M).max() > 1e-9 * scale:
+                    if not (np.abs(got_M - want_M).max() <= 1e-9 * scale):
                         res.fail(f"moment {fname} form={form} elem={et}", f"moment of the nodal forces about {cpt.tolist()} = {got_M.tolist()} but the moment of the density = {want_M.tolist()}", ident)
                     if strays and np.abs(F[strays]).max() > 0:
                         res.fail(f"stray nodes loaded {fname} elem={et}", "selected nodes that bound no loaded element received a force", ident)
@@ -281,10 +281,18 @@ def main():
         simu.Bc_Init()
         nodes = np.where(regions(dim, a, b, c)[1][2](Y))[0]
         v = rng.randint(1, 9) / 2
-        call_load(simu, kind, 'add_neumann', nodes, [v], [unknowns[0]])
+        # the selection given as an array or as a plain list of node numbers (every other entry point accepts both)
+        sel_form = nodes if ktype % 2 == 0 else [int(n) for n in nodes]
+        try:
+            call_load(simu, kind, 'add_neumann', sel_form, [v], [unknowns[0]])
+        except Exception as ex:  # noqa: BLE001
+            res.fail(f"point load raises selection={'array' if ktype % 2 == 0 else 'list'}", f"add_neumann raised {type(ex).__name__}: {str(ex)[:100]} for a selection given as a {'numpy array' if ktype % 2 == 0 else 'list'}",
+                     dict(elemType=et, sim=kind))
+            simu.Bc_Init()
+            call_load(simu, kind, 'add_neumann', nodes, [v], [unknowns[0]])
         F = np.asarray(nvec_of(simu, kind)).reshape(mesh.Nn, ncomp)
         res.case((et, kind, "point"))
-        if abs(F[:, 0].sum() - v) > 1e-12 * (1 + v) or np.abs(np.delete(F, nodes, 0)).max(initial=0) > 0:
+        if not (abs(F[:, 0].sum() - v) <= 1e-12 * (1 + v)) or np.abs(np.delete(F, nodes, 0)).max(initial=0) > 0:
             res.fail(f"point load total elem={et}", f"a concentrated load {v} on {len(nodes)} nodes has total {F[:, 0].sum()}", dict(elemType=et, sim=kind))
         if ncomp > 1:
             rname, idim, pred, y0, dirs = regions(dim, a, b, c)[1]
@@ -300,7 +308,7 @@ def main():
             area = np.linalg.norm(nvec) * (thickness if dim == 2 else 1.0)
             nhat = nvec / np.linalg.norm(nvec)
             res.case((et, kind, "pressure"))
-            if abs(abs(F3 @ nhat) - pr * area) > 1e-9 * (1 + pr * area) or np.linalg.norm(np.cross(F3, nhat)) > 1e-9 * (1 + pr * area):
+            if not (abs(abs(F3 @ nhat) - pr * area) <= 1e-9 * (1 + pr * area)) or not (np.linalg.norm(np.cross(F3, nhat)) <= 1e-9 * (1 + pr * area)):
                 res.fail(f"pressure resultant elem={et}", f"pressure {pr} on a planar face of measure {area}: resultant {F3.tolist()}, expected ±{(pr * area * nhat).tolist()}",
                          dict(elemType=et, sim=kind, A=A.tolist(), thickness=thickness))
 
@@ -327,7 +335,7 @@ def main():
             res.case((et, "cap + side", form))
             res.count("multi-face selection")
             gotF, gotMy = Fz[:, 2].sum(), -(Xs[:, 0] * Fz[:, 2]).sum()
-            if abs(gotF - wantF) > 1e-9 * (1 + abs(wantF)) or abs(gotMy - wantMy) > 1e-9 * (1 + abs(wantMy)):
+            if not (abs(gotF - wantF) <= 1e-9 * (1 + abs(wantF))) or not (abs(gotMy - wantMy) <= 1e-9 * (1 + abs(wantMy))):
                 res.fail(f"surface load on a selection spanning two faces elem={et}", f"{form} load on the top cap and the face x = {a_}: resultant F_z = {gotF}, expected {wantF}; moment M_y = {gotMy}, expected {wantMy}",
                          dict(elemType=et, form=form, selection="nodes with z = c or x = a, shuffled"))
 
@@ -378,7 +386,7 @@ def main():
                     F3 = np.zeros((mesh.Nn, 3))
                     F3[:, :len(unk)] = F[:, :len(unk)]
                     got_R = F3.sum(0)
-                    if np.abs(got_R - want_R).max() > 1e-9 * (1 + np.abs(want_R).max()):
+                    if not (np.abs(got_R - want_R).max() <= 1e-9 * (1 + np.abs(want_R).max())):
                         res.fail(f"beam resultant timo={timo} dim={bdim} form={form}", f"Σ nodal forces = {got_R.tolist()} but ∫ density = {want_R.tolist()}", ident)
                         continue
                     Mn = np.zeros(3)
@@ -388,8 +396,83 @@ def main():
                         Mn = F[:, 3:6].sum(0)
                     got_M = cross_moment(X, F3) + Mn
                     want_M = ref_integral(lambda x: np.cross(x, qfun(x)), y0, [d], A0, t0)
-                    if np.abs(got_M - want_M).max() > 1e-9 * (1 + np.abs(want_M).max()):
+                    if not (np.abs(got_M - want_M).max() <= 1e-9 * (1 + np.abs(want_M).max())):
                         res.fail(f"beam moment timo={timo} dim={bdim} form={form}", f"moment of nodal forces and couples about the origin = {got_M.tolist()} but the moment of the density = {want_M.tolist()}", ident)
+
+    # ---------------- intensities owned by the caller: one array / function object given for several components, and given again in a second load case ----------------
+    # (`f = ...; simu.add_neumann(nodes, [f, f], ["x", "y"])`, then the same f in the next load case.) Every component and every load case
+    # must receive the forces of the intensity the caller wrote down: for a concentrated load value_i / N on selected node i, for a distributed
+    # load the nodal forces a fresh simulation produces from a fresh copy of the values on one component.
+    sh_types = (types2 + types3) if thorough else ["TRI3", "QUAD8", "TETRA4", "HEXA8"]
+    for ksh, et in enumerate(sh_types):
+        dim = M.dim_of(et)
+        mesh = M.mesh_2d(et, a, b, 1.0) if dim == 2 else M.mesh_3d(et, a, b, c, 1.0, 2)
+        X = mesh.coord
+        thickness = 0.5 if dim == 2 else 1.0
+        for kind in ["elastic", "thermal" if ksh % 2 == 0 else "phasefield"]:
+            try:
+                simu, ncomp = build_sim(kind, mesh, thickness)
+            except Exception as ex:  # noqa: BLE001
+                res.fail(f"simulation cannot be built sim={kind}", f"{kind} on {et}: {type(ex).__name__}: {str(ex)[:120]}", dict(sim=kind, elemType=et))
+                continue
+            unknowns = UNK[ncomp] if ncomp > 1 else ["t"]
+            regs = regions(dim, a, b, c)
+            todo = [("add_neumann", regs[1]), ("add_neumann", regs[-1])]
+            for reg in regs:
+                todo += [(fn, reg) for fn in {1: ["add_lineLoad"] + (["add_surfLoad"] if dim == 2 else []), 2: ["add_volumeLoad"] if dim == 2 else ["add_surfLoad"], 3: ["add_volumeLoad"]}[reg[1]]]
+            for (fname, (rname, idim, pred, y0, dirs)) in todo:
+                nodes = np.where(pred(X))[0]
+                nodes = nodes[np.array(rng.sample(range(len(nodes)), len(nodes)), dtype=int)]
+                p = Poly(rng, 1, dim)
+                for form in ("nodal float array", "nodal integer array", "callable"):
+                    if form == "nodal float array":
+                        val = np.array(p(X[nodes, 0], X[nodes, 1], X[nodes, 2]) * np.ones(len(nodes)), dtype=float)
+                    elif form == "nodal integer array":
+                        val = np.array([rng.randint(-3, 3) for _ in nodes], dtype=np.int64)
+                    else:
+                        val = p
+                    keep = None if form == "callable" else val.copy()
+                    vn = np.array(p(X[nodes, 0], X[nodes, 1], X[nodes, 2]) * np.ones(len(nodes)), dtype=float) if keep is None else keep.astype(float)
+                    ident = dict(elemType=et, sim=kind, load=fname, region=rname, form=form, density=repr(p) if form != "nodal integer array" else keep.tolist(),
+                                 thickness=thickness, nodes=[int(n) for n in nodes[:40]])
+                    # what one component must receive
+                    if fname == "add_neumann":
+                        w = np.zeros(mesh.Nn)
+                        np.add.at(w, nodes, vn / len(nodes))
+                    else:
+                        try:
+                            s2, _ = build_sim(kind, mesh, thickness)
+                            call_load(s2, kind, fname, nodes.copy(), [p if keep is None else vn.copy()], [unknowns[0]])
+                            w = np.asarray(nvec_of(s2, kind)).reshape(mesh.Nn, ncomp)[:, 0].copy()
+                        except Exception as ex:  # noqa: BLE001
+                            res.fail(f"load raises {fname} elem={et} form={form}", f"{fname} raised {type(ex).__name__}: {str(ex)[:150]}", ident)
+                            continue
+                    tol = 1e-12 * (1 + np.abs(w).max())
+                    res.count("shared intensity object")
+                    ok = True
+                    for case_, vals_, unk_ in (("the same object for every component", [val] * ncomp, unknowns),
+                                               ("the same object again in a second load case", [val], [unknowns[-1]])):
+                        simu.Bc_Init()
+                        try:
+                            call_load(simu, kind, fname, nodes, vals_, unk_)
+                            F = np.asarray(nvec_of(simu, kind)).reshape(mesh.Nn, ncomp)
+                        except Exception as ex:  # noqa: BLE001
+                            res.fail(f"load raises {fname} elem={et} form={form}", f"{fname} ({case_}) raised {type(ex).__name__}: {str(ex)[:150]}", dict(ident, case=case_))
+                            ok = False
+                            break
+                        res.case((et, kind, fname, rname, form, case_))
+                        want = np.zeros((mesh.Nn, ncomp))
+                        for u_ in unk_:
+                            want[:, unknowns.index(u_)] = w
+                        err = np.abs(F - want).max(initial=0)
+                        if not (err <= tol):
+                            kbad = int(np.argmax(np.abs(F - want).max(0)))
+                            res.fail(f"shared intensity {fname} form={form}", f"{case_}: component {unknowns[kbad]!r} has resultant {F[:, kbad].sum()} (expected {want[:, kbad].sum()}), "
+                                     f"largest nodal difference {err}", dict(ident, case=case_))
+                            ok = False
+                            break
+                    if ok and keep is not None and not np.array_equal(val, keep):
+                        res.fail(f"caller's intensity array modified {fname}", f"the array of nodal intensities given to {fname} was changed in place (largest change {np.abs(val - keep).max()})", ident)
 
     answers = driver.ask(lines)
     if answers is None:
@@ -407,11 +490,12 @@ def main():
                 except Exception:  # noqa: BLE001
                     res.disagree("element-load", dict(ident, model=ans[:80]))
                     continue
-                if f.shape != real.shape or np.abs(f - real).max() > 1e-11 * (1 + np.abs(real).max()):
+                if f.shape != real.shape or not (np.abs(f - real).max() <= 1e-11 * (1 + np.abs(real).max())):
                     res.disagree("element-load", dict(ident, model=f.tolist(), real=real.tolist()))
     res.search_note = "resultants, moments, thickness factors, selections, point loads and pressure resultants all match on the sampled meshes"
     res.write("affine images of rectangle / box meshes of every 2D / 3D element type, loads on edges, faces and the whole domain through add_lineLoad / add_surfLoad / add_volumeLoad / "
               "add_pressureLoad / add_neumann, densities constant / polynomial callable / nodal array (degree ≤ element order), random thickness, stray nodes, "
+              "one intensity object (float / integer nodal array, function) shared by several components and reused in a second load case, "
               "Elastic / Thermal / PhaseField / HyperElastic simulations, Euler-Bernoulli and Timoshenko beams in 2D and 3D; distinct = distinct (element type, simulation, loader, region, form)")
 
 
